@@ -64,6 +64,7 @@ package gcsizes
 //@ axiom [align_complex] forall ws int64, ma int64, T types.Type :: {gcAlign(ws, ma, T)} istype(T.Underlying(), *types.Basic) && isComplexKind(astype(T.Underlying(), *types.Basic).Kind()) ==> gcAlign(ws, ma, T) == clampAlign(ma, gcSize(ws, ma, T) / 2)
 //@ axiom [align_other]  forall ws int64, ma int64, T types.Type :: {gcAlign(ws, ma, T)} !istype(T.Underlying(), *types.Array) && !istype(T.Underlying(), *types.Struct) && !(istype(T.Underlying(), *types.Basic) && isComplexKind(astype(T.Underlying(), *types.Basic).Kind())) ==> gcAlign(ws, ma, T) == clampAlign(ma, gcSize(ws, ma, T))
 //@ axiom [underlying_idem] forall T types.Type :: {T.Underlying().Underlying()} T.Underlying().Underlying() == T.Underlying()
+//@ axiom [underlying_struct] forall T types.Type :: {T.Underlying()} istype(T, *types.Struct) ==> T.Underlying() == T
 //@ axiom [size_underlying] forall ws int64, ma int64, T types.Type :: {gcSize(ws, ma, T.Underlying())} gcSize(ws, ma, T.Underlying()) == gcSize(ws, ma, T) && gcAlign(ws, ma, T.Underlying()) == gcAlign(ws, ma, T)
 //@ axiom [ranges] forall ws int64, ma int64, T types.Type :: {gcAlign(ws, ma, T)} wfSizes(ws, ma) ==> 1 <= gcAlign(ws, ma, T) && gcAlign(ws, ma, T) <= ma && gcSize(ws, ma, T) >= 0
 //@ group
@@ -107,6 +108,14 @@ package gcsizes
 //@   requires 0 <= i && i <= len(fs) && len(fs) == S.NumFields() && (forall j int :: {fs[j]} 0 <= j && j < len(fs) ==> fs[j] == S.Field(j))
 //@   ensures  endS(ws, ma, fs, i) == gcEnd(ws, ma, S, i)
 //@   trigger  endS(ws, ma, fs, i), gcEnd(ws, ma, S, i)
+
+// fields never overlap: every field starts at or after the end of its predecessors
+//@ lemma offS_ge_endS(ws int64, ma int64, fs []*types.Var, i int)
+//@   uses     gcspec
+//@   requires wfSizes(ws, ma) && 0 <= i
+//@   ensures  endS(ws, ma, fs, i) >= 0 && offS(ws, ma, fs, i) >= endS(ws, ma, fs, i)
+//@   induct   i
+//@   trigger  offS(ws, ma, fs, i)
 
 //@ func (*Sizes).Offsetsof
 //@   uses     gcspec
